@@ -253,13 +253,13 @@ func b16Printable(v interface{}) interface{} {
 	case nil, bool, float64, string:
 		return v
 	case b16Money:
-		return fmt.Sprintf("<non-JSON leaf jph.b16Money{%d}>", t.N)
+		return fmt.Sprintf("(non-JSON leaf jph.b16Money{%d})", t.N)
 	case *b16Handle:
-		return fmt.Sprintf("<non-JSON leaf &jph.b16Handle{%d}>", t.N)
+		return fmt.Sprintf("(non-JSON leaf *jph.b16Handle{%d})", t.N)
 	case c12Sentinel:
 		return t.String()
 	}
-	return fmt.Sprintf("<non-JSON leaf of type %T>", v)
+	return fmt.Sprintf("(non-JSON leaf of type %T)", v)
 }
 
 func b16Show(v interface{}) string {
